@@ -2,6 +2,7 @@ package chain
 
 import (
 	"fmt"
+	"os"
 	"runtime"
 	"sort"
 	"strings"
@@ -18,7 +19,7 @@ import (
 // has its own check; the shared monitors run everywhere so that their reach is measured everywhere).
 func reporterFor(t *rapid.T, prop string, w *chainsim.World, extra func() string) chainsim.Reporter {
 	return func(property, oracle, witness, message string) {
-		if property != prop {
+		if property != prop && property != os.Getenv("VERIF_ALSO") { // VERIF_ALSO: investigation aid, never set by bin/check
 			simkit.Probe(fmt.Sprintf("verdict_for_other_property(%s:%s/%s)", property, oracle, witness))
 			return
 		}
@@ -166,10 +167,12 @@ func panicSite(stack string) string {
 // ---- shared runner for the honest-network properties ---------------------------------------------------------------
 
 type runCfg struct {
-	prop   string
-	opts   chainsim.WorldOpts
-	faults chainsim.FaultPlan
-	blocks [2]int
+	prop    string
+	opts    chainsim.WorldOpts
+	faults  chainsim.FaultPlan
+	blocks  [2]int
+	mutants bool
+	tail    func(w *chainsim.World, m *chainsim.Monitor, adv *chainsim.Adversary)
 }
 
 func runHonest(t *rapid.T, c runCfg, extra func(w *chainsim.World, m *chainsim.Monitor)) {
@@ -186,6 +189,10 @@ func runHonest(t *rapid.T, c runCfg, extra func(w *chainsim.World, m *chainsim.M
 		return tipsSummary(w)
 	})
 	installPanicReporter(w, m)
+	chainsim.NewSyncMonitor(w, m.Report) // the sync oracles (C19) ride along in every run
+	if c.mutants {
+		chainsim.NewMutantInjector(w, m, m.Report)
+	}
 	if !w.QuorumsIntersectInHonest() {
 		m.OutsideTheorem = true
 		simkit.Probe("quorum_intersection_premise_fails")
@@ -203,6 +210,9 @@ func runHonest(t *rapid.T, c runCfg, extra func(w *chainsim.World, m *chainsim.M
 	}
 	w.S.Run(horizon, 600000, nil)
 	m.Raise()
+	if c.tail != nil {
+		c.tail(w, m, adv)
+	}
 	statsToSimkit(w)
 	simkit.DetLog("%s | %s", w.Describe(), tipsSummary(w))
 	simkit.Distinct(w.Describe(), tipsSummary(w))
